@@ -12,7 +12,8 @@ Inductive fate := Delivered | PacketLost | AckLost.
 
 Record airlog := mkLog {
   l_from : nat; l_addr : list N; l_data : list N; l_noack : bool;
-  l_attempts : N; l_ok : bool; l_receivers : list (nat * N) }.
+  l_attempts : N; l_ok : bool;
+  l_receivers : list (nat * N) }.   (* (radio, pipe + 8 if that receiver acknowledged) per attempt *)
 
 (* clock: virtual nanoseconds; every SPI transfer costs SPI_COST, reading the clock costs
    NOW_COST (so that polling loops with a deadline terminate), sleeping adds its argument *)
@@ -125,7 +126,7 @@ Fixpoint deliver (s : radio) (si : nat) (rs : list radio) (j : nat) (pid : N) (n
       | None => (r :: t', acked, apl, who)
       | Some p =>
         let '(r', a, pl) := receive r p pid noack d ack_heard in
-        (r' :: t', a || acked, (if a then pl else apl), (j, p) :: who)
+        (r' :: t', a || acked, (if a then pl else apl), (j, if a then p + 8 else p) :: who)
       end
   end.
 
